@@ -164,3 +164,16 @@ ADDENDA3 = {
 for _pid, _txt in ADDENDA3.items():
     if _pid in PROPS:
         PROPS[_pid]["explanation"] += _txt
+
+ADDENDA4 = {
+    "C01": " C01.11 the value writer is total over Integral/Real numbers and never returns None; C01.12 lexer keywords are reserved words; C01.13 a macro call obeys the subcircuit nesting rule, memoized or not.",
+    "C05": " C05.13 a constant defined by another constant is followed to its number.",
+    "C08": " C08.7 every execution of a job counts its own readouts (fresh subcircuit objects).",
+    "C13": " C13.8 statements and macro bodies built ahead of the circuit are relinked to the circuit's definitions; C13.9 a made-up bounding gate is busy; C13.10 reported indices are integers; C13.11 subcircuit state is not carried between parallel branches.",
+    "C15": " C15.10 the qubit count sizing IPC result views is an integer; C15.11 per-execution readout counters; C15.12 outcomes are tallied as plain integers.",
+    "C18": " C18.5 receiver of keyword-taking gate calls is positional-only; C18.6 the appended stretch parameter has an unused name; C18.7 stretched table keys agree; C18.8 memo look-up tolerates unhashable arguments; C18.9 integral-float test follows constants of constants.",
+    "C20": " C20.8 Register equality does not recurse along an alias chain.",
+}
+for _pid, _txt in ADDENDA4.items():
+    if _pid in PROPS:
+        PROPS[_pid]["explanation"] += _txt
